@@ -33,9 +33,9 @@ var shimPath string
 type step struct {
 	Kind string   `json:"kind"` // login | op | mdeliver
 	User string   `json:"user,omitempty"`
-	Op   string   `json:"op,omitempty"`    // hist op line
-	ID   int      `json:"id,omitempty"`    // message id of an mdeliver
-	To   []string `json:"to,omitempty"`    // its recipients
+	Op   string   `json:"op,omitempty"` // hist op line
+	ID   int      `json:"id,omitempty"` // message id of an mdeliver
+	To   []string `json:"to,omitempty"` // its recipients
 }
 
 // bigMsg: every third message is multipart with an out-of-line (> 1 KiB) text part and a base64 attachment
